@@ -50,9 +50,13 @@ class CoreCheck(Check):
         raw += self.extra_cases(tier, seed, ctx)
         # ask the model first: scripts it cannot follow (fuel, blocked loop, known-finding region) are not run
         m = run_sharded(ctx['mexe'], raw, os.path.join(OUT, self.pid), 'pre_m')
+        missing = [c for c in raw if m.get(c[0]) is None]          # a shard lost on an overloaded machine: ask again, and never keep a script the model was not asked about
+        if missing:
+            m.update(run_sharded(ctx['mexe'], missing, os.path.join(OUT, self.pid), 'pre_m2', nshards=2))
         keep, dropped = [], {}
         for c in raw:
-            tr = m.get(c[0]) or []
+            tr = m.get(c[0])
+            if tr is None: dropped['no model trace'] = dropped.get('no model trace', 0) + 1; continue
             f = [l for l in tr if l.startswith('FAULT')]
             if f: dropped[f[0]] = dropped.get(f[0], 0) + 1
             else: keep.append(c)
@@ -72,6 +76,14 @@ class CoreCheck(Check):
         return ctr is not None and sum(1 for l in ctr if l.startswith('cb ')) >= 2
     def project(self, header, lines):
         return [re.sub(r'^r-\d+$', 'r-', l) for l in lines]
+    def judge(self, case, ctr, mtr):
+        k = super().judge(case, ctr, mtr)
+        # a generated script the model cannot follow (fuel, blocked loop, known-finding region) is not judged by comparison; the implementation's
+        # own verdicts (monitors, crashes, leaks) still count.  Named corpus cases are always compared.
+        if k[0] != 'ok' and mtr is not None and not case[0].startswith('corpus') and any(l.startswith('FAULT') for l in mtr) \
+           and not (ctr is not None and any(l.startswith(('CRASH', 'LEAK')) for l in ctr)) and not (ctr is not None and self.monitors(case, ctr)):
+            return ('ok', '', None)
+        return k
 
 
 # ---------------------------------------------------------------- trace structure
